@@ -258,6 +258,29 @@ Definition plane_multiply (P : plane) (w : pwf) : result pwf :=
             (match pl_focal P with Some f => f | None => focal_truthy (pw_focal w) end)   (* Pupil.multiply *)
             shape (mul_fields phs (pw_data w))))).
 
+(* ---- lentil.Tilt(x, y) as a plane (TiltInterface.multiply): the default plane (amplitude 1, opd 0, no
+   mask), then `field.tilt.append(self)` for every field of the result ---- *)
+Definition append_tilt (t : tilt) (w : pwf) : pwf :=
+  mkPwf (pw_lam w) (pw_pix w) (pw_focal w) (pw_shape w)
+        (map (fun f => mkField (fd f) (offr f) (offc f) (ftilt f ++ [t])) (pw_data w)).
+(* an element of an optical chain *)
+Inductive celem := CPlane (P : plane) | CTilt (t : tilt) (P : plane).
+Definition elem_multiply (e : celem) (w : pwf) : result pwf :=
+  match e with
+  | CPlane P => plane_multiply P w
+  | CTilt t P => match plane_multiply P w with Ok w' => Ok (append_tilt t w') | Err e => Err e end
+  end.
+
+(* ---- attribute updates on a live plane object ---- *)
+(* plane.amplitude = value / plane.amplitude[...] = value: the mask and the slices computed by the constructor stay *)
+Definition set_amp (P : plane) (a : aattr) : plane :=
+  mkPlane a (pl_opd P) (pl_mask P) (pl_slices P) (pl_pix P) (pl_tilt P) (pl_focal P).
+Definition set_opd (P : plane) (o : oattr) : plane :=
+  mkPlane (pl_amp P) o (pl_mask P) (pl_slices P) (pl_pix P) (pl_tilt P) (pl_focal P).
+(* plane.mask[...] = value (in place): Plane._slice is NOT recomputed *)
+Definition set_mask_inplace (P : plane) (m : pmask) : plane :=
+  mkPlane (pl_amp P) (pl_opd P) m (pl_slices P) (pl_pix P) (pl_tilt P) (pl_focal P).
+
 (* ---- Wavefront.field / .intensity / .insert ---- *)
 (* insertion into a 0-d array: only 0-d data at offset (0, 0) fits (the Ellipsis path) *)
 Definition insert0 (g : S -> S) (f : field S) (out w : S) : result S :=
@@ -375,6 +398,8 @@ Arguments pw_data {S}. Arguments kofb {S}. Arguments binarise {S}. Arguments ini
 Arguments plane_init {S}. Arguments pwf_init {S}. Arguments amp_data {S}. Arguments opd_data {S}. Arguments phase {S}.
 Arguments dmul {S}. Arguments dforce {S}. Arguments phasor {S}. Arguments phasors_from {S}. Arguments plane_phasors {S}.
 Arguments keep {S}. Arguments mul_fields {S}. Arguments plane_multiply {S}. Arguments insert0 {S}. Arguments fold0 {S}.
+Arguments append_tilt {S}. Arguments CPlane {S}. Arguments CTilt {S}. Arguments elem_multiply {S}.
+Arguments set_amp {S}. Arguments set_opd {S}. Arguments set_mask_inplace {S}.
 Arguments pwf_field {S}. Arguments pwf_intensity {S}. Arguments pwf_insert {S}. Arguments amp_at {S}.
 Arguments cover {S}. Arguments transmission {S}.
 Arguments mask_at : simpl never.
